@@ -50,6 +50,12 @@ def h_clean(hx):
     hx.prove(enc == sent, "decode with repair leaves the received buffer unchanged")
     rep = BPTC19696.repair_if_necessary(enc.copy())
     hx.prove(rep == sent, "repair never alters an error-free codeword (all 196 bits)")
+    # a second, unrelated encode/decode must not disturb the first codeword (results are fresh objects)
+    m2 = hx.ba(96, "n")
+    enc2 = BPTC19696.encode(m2)
+    hx.prove(enc == sent, "encoding another message leaves the first codeword unchanged")
+    hx.prove(BPTC19696.deinterleave_data_bits(enc2, repair_if_necessary=True) == m2, "second message decodes to itself")
+    hx.prove(BPTC19696.deinterleave_data_bits(enc, repair_if_necessary=True) == m, "first codeword still decodes to the first message afterwards")
     # transmitted matrix: rows / columns are Hamming codewords
     allb = BPTC19696.deinterleave_all_bits(enc)
     table = BPTC19696.fill_encoding_table(BPTC19696.make_encoding_table(), allb)
